@@ -34,8 +34,115 @@ func registerGlobal(w *World) *ssa.Global {
 			regPtrAliasMemo[g] = ptrAliases(w, g)
 		}
 		regAliasMemo[g] = mapAliases(w, g)
+		// snapshot helpers: a call of a function that returns an entry-for-entry
+		// copy of the register stands for the register
+		regCopyMemo[g] = map[*ssa.Function]bool{}
+		for _, fn := range w.Funcs {
+			if w.InRepo(fn) && isRegisterCopy(fn, g) {
+				regCopyMemo[g][fn] = true
+			}
+		}
+		if len(regCopyMemo[g]) > 0 {
+			for _, fn := range w.Funcs {
+				for _, b := range fn.Blocks {
+					for _, in := range b.Instrs {
+						if c, ok := in.(*ssa.Call); ok && c.Call.StaticCallee() != nil && regCopyMemo[g][c.Call.StaticCallee()] {
+							regAliasMemo[g][c] = true
+						}
+					}
+				}
+			}
+		}
 	}
 	return g
+}
+
+// regCopyMemo: per register global, the functions that return a fresh map
+// holding exactly the register's entries (see isRegisterCopy).
+var regCopyMemo = map[*ssa.Global]map[*ssa.Function]bool{}
+
+// isRegisterCopy: fn takes nothing and returns a map it made itself, whose
+// only updates are m[k] = v with (k, v) the pair produced by a range over the
+// register; apart from that it only takes and releases locks. (A snapshot
+// handed to callers that iterate without holding the lock.)
+func isRegisterCopy(fn *ssa.Function, g *ssa.Global) bool {
+	if fn.Blocks == nil || len(fn.Params) != 0 || len(fn.FreeVars) != 0 || fn.Signature.Results().Len() != 1 {
+		return false
+	}
+	var mk *ssa.MakeMap
+	updates := 0
+	for _, b := range fn.Blocks {
+		for _, in := range b.Instrs {
+			switch x := in.(type) {
+			case *ssa.MakeMap:
+				if mk != nil {
+					return false
+				}
+				mk = x
+			case *ssa.Return:
+				if len(x.Results) != 1 {
+					return false
+				}
+				if _, ok := x.Results[0].(*ssa.MakeMap); !ok {
+					// a function with a defer returns through a result variable
+					ld, ok := x.Results[0].(*ssa.UnOp)
+					if !ok {
+						return false
+					}
+					if _, ok := ld.X.(*ssa.Alloc); !ok {
+						return false
+					}
+				}
+			case *ssa.Store:
+				_, okA := x.Addr.(*ssa.Alloc)
+				_, okV := x.Val.(*ssa.MakeMap)
+				if !okA || !okV {
+					return false
+				}
+			case *ssa.MapUpdate:
+				kx, ok1 := x.Key.(*ssa.Extract)
+				vx, ok2 := x.Value.(*ssa.Extract)
+				if !ok1 || !ok2 || kx.Index != 1 || vx.Index != 2 || kx.Tuple != vx.Tuple {
+					return false
+				}
+				nx, ok := kx.Tuple.(*ssa.Next)
+				if !ok {
+					return false
+				}
+				rg, ok := nx.Iter.(*ssa.Range)
+				if !ok || !loadsGlobal(rg.X, g) {
+					return false
+				}
+				if _, ok := x.Map.(*ssa.MakeMap); !ok {
+					return false
+				}
+				updates++
+			case *ssa.Call:
+				if bi, ok := x.Call.Value.(*ssa.Builtin); ok && bi.Name() == "len" {
+					continue
+				}
+				if c := x.Call.StaticCallee(); c == nil || !isLockOp(c.String()) {
+					return false
+				}
+			case *ssa.Defer:
+				if c := x.Call.StaticCallee(); c == nil || !isLockOp(c.String()) {
+					return false
+				}
+			case *ssa.If:
+				// the only branch is the loop's own "more entries?" test: no entry is skipped
+				ex, ok := x.Cond.(*ssa.Extract)
+				if !ok || ex.Index != 0 {
+					return false
+				}
+				if _, ok := ex.Tuple.(*ssa.Next); !ok {
+					return false
+				}
+			case *ssa.Go, *ssa.Send, *ssa.Panic:
+				return false
+			}
+		}
+	}
+	return mk != nil && updates == 1
 }
 
 var regGlobalMemo = map[*World]*ssa.Global{}
@@ -453,10 +560,26 @@ func c07CBORDispatch(w *World, r *Recorder) {
 	// (an immediately-invoked literal may scope the selector)
 	var blocks []*ssa.BasicBlock
 	var collect func(f *ssa.Function)
+	seenFn := map[*ssa.Function]bool{}
 	collect = func(f *ssa.Function) {
+		if seenFn[f] || len(seenFn) > 8 {
+			return
+		}
+		seenFn[f] = true
 		blocks = append(blocks, f.Blocks...)
 		for _, a := range f.AnonFuncs {
 			collect(a)
+		}
+		// and unexported in-repo helpers it calls statically (the decoder may
+		// be a thin wrapper that passes the codec mode along)
+		for _, b := range f.Blocks {
+			for _, in := range b.Instrs {
+				if c, ok := in.(*ssa.Call); ok {
+					if h := c.Call.StaticCallee(); h != nil && h.Blocks != nil && w.InRepo(h) && !ssaExported(h) && h.Signature.Recv() == nil {
+						collect(h)
+					}
+				}
+			}
 		}
 	}
 	collect(fn)
@@ -644,7 +767,14 @@ func initRegistrations(w *World, r *Recorder, rule string) []regEntry {
 				}
 				dyn := "?"
 				// the value is a profileEntry aggregate: find the Profile field stored
-				if mu, ok := ev.Instr.(*ssa.MapUpdate); ok {
+				if pv, ok := ev.Parts[".Profile"]; ok {
+					// the entry's parts as they were when it was stored
+					if pv.Kind == KIface && pv.Dyn != nil {
+						dyn = pv.Dyn.String()
+					} else {
+						dyn = pv.name()
+					}
+				} else if mu, ok := ev.Instr.(*ssa.MapUpdate); ok {
 					dyn = profileDynOf(p, mu)
 				}
 				out = append(out, regEntry{Key: key, ProfDyn: dyn, Instr: ev.Instr})
@@ -996,6 +1126,21 @@ func registerSource(v ssa.Value, reg *ssa.Global) (string, string) {
 				return "", ""
 			}
 			switch a := x.X.(type) {
+			case *ssa.Alloc:
+				// the whole local entry copy (handed to a value-receiver method)
+				var stored ssa.Value
+				n := 0
+				for _, ref := range *a.Referrers() {
+					if st, ok := ref.(*ssa.Store); ok && st.Addr == ssa.Value(a) {
+						stored = st.Val
+						n++
+					}
+				}
+				if n != 1 {
+					return "", ""
+				}
+				v = stored
+				continue
 			case *ssa.FieldAddr:
 				// field of a local entry copy: follow what was stored into the copy
 				if al, ok := a.X.(*ssa.Alloc); ok {
@@ -1054,6 +1199,11 @@ func registerSource(v ssa.Value, reg *ssa.Global) (string, string) {
 							return "default", ""
 						}
 					}
+					// a parameterless helper that hands on what the lookup helper
+					// returns for the constant ""
+					if forwardsDefaultLookup(h, reg) {
+						return "default", ""
+					}
 				}
 				return "", ""
 			default:
@@ -1071,6 +1221,175 @@ func registerSource(v ssa.Value, reg *ssa.Global) (string, string) {
 		}
 	}
 	return "", ""
+}
+
+// paramRoot: v is (a field of, possibly through a local copy) a parameter of
+// its function; returns that parameter.
+func paramRoot(v ssa.Value) *ssa.Parameter {
+	v = stripIface(v)
+	for i := 0; i < 8 && v != nil; i++ {
+		switch x := v.(type) {
+		case *ssa.Parameter:
+			return x
+		case *ssa.Field:
+			v = x.X
+		case *ssa.UnOp:
+			if x.Op != token.MUL {
+				return nil
+			}
+			switch a := x.X.(type) {
+			case *ssa.FieldAddr:
+				if al, ok := a.X.(*ssa.Alloc); ok {
+					var stored ssa.Value
+					n := 0
+					for _, ref := range *al.Referrers() {
+						if st, ok := ref.(*ssa.Store); ok && st.Addr == ssa.Value(al) {
+							stored = st.Val
+							n++
+						}
+					}
+					if n != 1 {
+						return nil
+					}
+					v = stored
+					continue
+				}
+				if p, ok := a.X.(*ssa.Parameter); ok {
+					return p
+				}
+				return nil
+			case *ssa.Alloc:
+				var stored ssa.Value
+				n := 0
+				for _, ref := range *a.Referrers() {
+					if st, ok := ref.(*ssa.Store); ok && st.Addr == ssa.Value(a) {
+						stored = st.Val
+						n++
+					}
+				}
+				if n != 1 {
+					return nil
+				}
+				v = stored
+			default:
+				return nil
+			}
+		default:
+			return nil
+		}
+	}
+	return nil
+}
+
+// entryPredicate: h is a bool helper called on a register entry (parameter pe)
+// and the decoded object (parameter pm). Reports what a true result implies:
+// present — the entry's JSON tag is a member of the object; equal — that
+// member's value equals the entry's GetName().
+func entryPredicate(h *ssa.Function, pe, pm int) (present, equal bool) {
+	if h.Blocks == nil || h.Signature.Results().Len() != 1 || pe >= len(h.Params) || pm >= len(h.Params) {
+		return false, false
+	}
+	fromEntry := func(v ssa.Value) bool { p := paramRoot(v); return p != nil && p == h.Params[pe] }
+	memberLookup := func(v ssa.Value) *ssa.Lookup {
+		ex, ok := stripIface(v).(*ssa.Extract)
+		if !ok {
+			return nil
+		}
+		lk, ok := ex.Tuple.(*ssa.Lookup)
+		if !ok || lk.X != ssa.Value(h.Params[pm]) || !fromEntry(lk.Index) {
+			return nil
+		}
+		return lk
+	}
+	isName := func(v ssa.Value) bool {
+		c, ok := stripIface(v).(*ssa.Call)
+		return ok && c.Call.IsInvoke() && c.Call.Method.Name() == "GetName" && fromEntry(c.Call.Value)
+	}
+	present, equal = true, true
+	n := 0
+	var judge func(v ssa.Value, seen map[ssa.Value]bool)
+	judge = func(v ssa.Value, seen map[ssa.Value]bool) {
+		switch x := v.(type) {
+		case *ssa.Const:
+			if x.Value != nil && x.Value.Kind() == constant.Bool && !constant.BoolVal(x.Value) {
+				return // false: implies nothing
+			}
+			present, equal = false, false
+		case *ssa.Extract:
+			if lk := memberLookup(x); lk != nil && x.Index == 1 && lk.CommaOk {
+				n++
+				equal = false // presence only
+				return
+			}
+			present, equal = false, false
+		case *ssa.BinOp:
+			if x.Op == token.EQL {
+				lx, ly := memberLookup(x.X), memberLookup(x.Y)
+				if (lx != nil && isName(x.Y)) || (ly != nil && isName(x.X)) {
+					n++
+					return // equality with a string-valued interface implies presence
+				}
+			}
+			present, equal = false, false
+		case *ssa.Phi:
+			if seen[x] {
+				return
+			}
+			seen[x] = true
+			for _, e := range x.Edges {
+				judge(e, seen)
+			}
+		default:
+			present, equal = false, false
+		}
+	}
+	for _, b := range h.Blocks {
+		if ret, ok := b.Instrs[len(b.Instrs)-1].(*ssa.Return); ok {
+			judge(ret.Results[0], map[ssa.Value]bool{})
+		}
+	}
+	if n == 0 {
+		return false, false
+	}
+	return present, equal
+}
+
+// forwardsDefaultLookup: h returns, unchanged, the two results of a register
+// lookup helper called with the constant "".
+func forwardsDefaultLookup(h *ssa.Function, reg *ssa.Global) bool {
+	if h.Blocks == nil || h.Signature.Results().Len() != 2 {
+		return false
+	}
+	rets := 0
+	for _, b := range h.Blocks {
+		ret, ok := b.Instrs[len(b.Instrs)-1].(*ssa.Return)
+		if !ok {
+			continue
+		}
+		rets++
+		e0, ok0 := ret.Results[0].(*ssa.Extract)
+		e1, ok1 := ret.Results[1].(*ssa.Extract)
+		if !ok0 || !ok1 || e0.Tuple != e1.Tuple || e0.Index != 0 || e1.Index != 1 {
+			return false
+		}
+		c, ok := e0.Tuple.(*ssa.Call)
+		if !ok {
+			return false
+		}
+		h2 := c.Call.StaticCallee()
+		if h2 == nil {
+			return false
+		}
+		pi := registerLookupHelper(h2, reg)
+		if pi < 0 || pi >= len(c.Call.Args) {
+			return false
+		}
+		k, ok := c.Call.Args[pi].(*ssa.Const)
+		if !ok || k.Value == nil || k.Value.Kind() != constant.String || constStringVal(k) != "" {
+			return false
+		}
+	}
+	return rets > 0
 }
 
 // registerLookupHelper: h's only map lookup is register[param i] (comma-ok)
@@ -1295,6 +1614,24 @@ func iterationGuarded(fn *ssa.Function, l jsonLeaf, reg *ssa.Global) (bool, stri
 			}
 			break
 		}
+		// a predicate helper called on the iteration entry and the decoded object
+		if c, ok := cond.(*ssa.Call); ok {
+			if h := c.Call.StaticCallee(); h != nil && h.Blocks != nil && isBoolType(c.Type()) {
+				pe, pm := -1, -1
+				for i, a := range c.Call.Args {
+					if src, _ := registerSource(a, reg); src == "iteration" {
+						pe = i
+					} else if _, isMap := a.Type().Underlying().(*types.Map); isMap {
+						pm = i
+					}
+				}
+				if pe >= 0 && pm >= 0 && edgeDominates(b, tSucc, l.pred) {
+					p, e := entryPredicate(h, pe, pm)
+					present = present || p
+					equal = equal || e
+				}
+			}
+		}
 		// present: cond is extract #1 of a comma-ok Lookup whose key derives from the iteration entry
 		if ex, ok := cond.(*ssa.Extract); ok && ex.Index == 1 {
 			if lk, ok := ex.Tuple.(*ssa.Lookup); ok && lk.CommaOk && !loadsGlobal(lk.X, reg) {
@@ -1411,8 +1748,19 @@ func checkC16(w *World, r *Recorder) propInfo {
 	if len(writers) == 0 {
 		r.Refute("C16-N1", "register-update", w.Pos(reg.Pos()), "nothing writes the register")
 	}
-	// N2
+	// N2 — a store helper that cannot fail itself (unexported, no error result,
+	// called statically) is judged in its callers, where it is inlined
+	var n2 []*ssa.Function
+	seenW := map[*ssa.Function]bool{}
 	for _, fn := range writers {
+		for _, f := range liftStoreHelper(w, fn, 0) {
+			if !seenW[f] {
+				seenW[f] = true
+				n2 = append(n2, f)
+			}
+		}
+	}
+	for _, fn := range n2 {
 		s := w.SummariseWith(fn, noInlineEncoding(w))
 		if ok, why := s.Complete(); !ok {
 			r.Undecide("C16-N2", fnKey(fn), w.FnPos(fn), why)
@@ -1530,6 +1878,11 @@ func calledOnlyFromRegistration(w *World, fn *ssa.Function) bool {
 		if ssaExported(f) {
 			return false
 		}
+		// a function literal handed only to (*sync.Once).Do (or called on the
+		// spot): it runs, at most, where its parent runs
+		if par := f.Parent(); par != nil && onlyRunByParent(par, f) {
+			return ok(par)
+		}
 		node := w.CallGraph().Nodes[f]
 		if node == nil || len(node.In) == 0 {
 			return false
@@ -1542,6 +1895,60 @@ func calledOnlyFromRegistration(w *World, fn *ssa.Function) bool {
 		return true
 	}
 	return ok(fn)
+}
+
+// onlyRunByParent: every use of the function literal lit inside par is as the
+// argument of (*sync.Once).Do or as the callee of an immediate call.
+func onlyRunByParent(par, lit *ssa.Function) bool {
+	uses := 0
+	for _, b := range par.Blocks {
+		for _, in := range b.Instrs {
+			var val ssa.Value
+			switch x := in.(type) {
+			case *ssa.MakeClosure:
+				if x.Fn == ssa.Value(lit) {
+					val = x
+				}
+			}
+			if val == nil {
+				// a literal without captured variables is used as a plain function value
+				for _, op := range in.Operands(nil) {
+					if *op == ssa.Value(lit) {
+						ci, ok := in.(ssa.CallInstruction)
+						if !ok {
+							return false
+						}
+						cc := ci.Common()
+						if cc.Value == ssa.Value(lit) {
+							uses++
+							continue
+						}
+						if f := cc.StaticCallee(); f == nil || f.String() != "(*sync.Once).Do" {
+							return false
+						}
+						uses++
+					}
+				}
+				continue
+			}
+			for _, ref := range *val.Referrers() {
+				ci, ok := ref.(ssa.CallInstruction)
+				if !ok {
+					return false
+				}
+				cc := ci.Common()
+				if cc.Value == val {
+					uses++
+					continue
+				}
+				if f := cc.StaticCallee(); f == nil || f.String() != "(*sync.Once).Do" {
+					return false
+				}
+				uses++
+			}
+		}
+	}
+	return uses > 0
 }
 
 func c16Factories(w *World, r *Recorder) {
@@ -1855,6 +2262,31 @@ func registerFuncVar(g *ssa.Global) map[*ssa.Function]bool {
 				}
 			}
 		}
+	}
+	return out
+}
+
+// liftStoreHelper: fn itself, or — when fn is an unexported function without
+// an error result that is only ever called statically from in-repo code — the
+// functions that call it (transitively, a few levels).
+func liftStoreHelper(w *World, fn *ssa.Function, depth int) []*ssa.Function {
+	self := []*ssa.Function{fn}
+	if depth > 3 || ssaExported(fn) || fn.Parent() != nil || errIndex(fn) >= 0 {
+		return self
+	}
+	node := w.CallGraph().Nodes[fn]
+	if node == nil || len(node.In) == 0 {
+		return self
+	}
+	var out []*ssa.Function
+	for _, e := range node.In {
+		if e.Site == nil || e.Site.Common().StaticCallee() != fn || e.Caller.Func == nil || !w.InRepo(e.Caller.Func) {
+			return self
+		}
+		if _, isCall := e.Site.(*ssa.Call); !isCall {
+			return self
+		}
+		out = append(out, liftStoreHelper(w, e.Caller.Func, depth+1)...)
 	}
 	return out
 }
